@@ -1392,3 +1392,6 @@ M("c08-converted-lists-unlinked", ["C08"], CX,
 M("c17-typed-array-from-typed-array-empty", ["C17"], CX,
   "            elif isinstance(arg, (JSArray, JSTypedArray)):\n", "            elif isinstance(arg, JSArray):\n",
   [("C17", "C17-R27", "typed array")], note="fix reverted: new Uint8Array(typedArray) is empty")
+M("c08-function-prototype-unlinked", ["C08"], VM,
+  "                    prototype._prototype = object_constructor._prototype\n", "                    pass\n",
+  [("C08", "C08-R24", "inherits-Object.prototype")], note="fix reverted: F.prototype has no prototype")
